@@ -524,7 +524,12 @@ def by_dataflow(out, f, S_, wantI, some_flows):
         return False, "d must start at 1; got %s" % Tm.show(d0)
     if f0 is not mk("fiat_msat", f):
         return False, "f must start at msat() (the modulus); got %s" % Tm.show(f0, maxdepth=3)
-    if not (g0.op == "array" and len(g0.args) == N32 + 1 and all(self_limb(g0.args[k], k) for k in range(N32)) and g0.args[N32] is lit(0)):
+    def whole_self(t):
+        if t.op == "struct" and len(t.args) == 3:
+            t = t.args[2]
+        return t is mk("canon32", S_)
+    g_copy = (g0.op == "store" and zeros(g0.args[0], N32 + 1) and g0.args[1] is mk("struct", "core::ops::RangeTo", ("end",), lit(N32)) and whole_self(g0.args[2]))
+    if not g_copy and not (g0.op == "array" and len(g0.args) == N32 + 1 and all(self_limb(g0.args[k], k) for k in range(N32)) and g0.args[N32] is lit(0)):
         return False, "g must start as the %d canonical (non-Montgomery) limbs of self followed by a zero limb; got %s" % (N32, Tm.show(g0, maxdepth=3))
     if not zeros(v0, N32):
         return False, "v must start at 0; got %s" % Tm.show(v0, maxdepth=3)
